@@ -20,7 +20,7 @@ def prepare(tier, seed):
 
 def units(tier, seed):
     out = []
-    for p in (1, 2, 3):
+    for p in (0, 1, 2, 3):
         out += _g.dag_units("dag", p, 1)
         out += _g.pdag_units("pdag", p, 1)
     out += _g.dag_units("dag", 4, 8)
